@@ -51,14 +51,6 @@ Init == /\ \E f \in [Slots -> InvChoice], sharing \in BOOLEAN, a1 \in BOOLEAN, a
 Next == UNCHANGED <<s, q>>
 Spec == Init /\ [][Next]_<<s, q>>
 
-ClaimReq(r) ==
-  [op |-> "alloc_put", v |-> 39, c |-> "c9", project |-> "proj1", user |-> "user1", cgen |-> -1, ctype |-> "INSTANCE",
-   env |-> [iproj |-> "x", iuser |-> "x"],
-   allocs |-> LET ps == SetToSeq(DOMAIN r.allocs) IN
-              [n \in DOMAIN ps |-> [u |-> ps[n],
-                                    res |-> LET ks == SetToSeq(DOMAIN r.allocs[ps[n]]) IN
-                                            [m \in DOMAIN ks |-> [rc |-> ks[m], amt |-> r.allocs[ps[n]][ks[m]]]]]]]
-
 MustSubMay == CandMust(s, q) \subseteq CandMay(s, q)
 Claimable == \A r \in CandMay(s, q) : Apply(s, ClaimReq(r)).resp.status = 204
 Structural == \A r \in CandMay(s, q) : PlacesExactly(q, r) /\ MappingsOK(q, r)
